@@ -3,6 +3,7 @@ package kpx
 import (
 	"context"
 	"fmt"
+	"github.com/shutter-network/rolling-shutter/rolling-shutter/trace"
 	"runtime/debug"
 
 	pubsub "github.com/libp2p/go-libp2p-pubsub"
@@ -58,12 +59,20 @@ func Deliver(m *p2p.P2PMessaging, topic string, data []byte) (d Delivery) {
 	if d.Verdict != pubsub.ValidationAccept {
 		return d
 	}
-	pm, _, err := p2p.UnmarshalPubsubMessage(msg)
+	pm, tc, err := p2p.UnmarshalPubsubMessage(msg)
 	if err != nil {
 		d.Err = err
 		return d
 	}
+	ctx := context.Background()
+	if trace.IsEnabled() {
+		// a node with a P2P layer opens the receive span (which reads the sender's
+		// trace context out of the envelope) before it dispatches to the handlers
+		var end func()
+		ctx, end = p2p.VerifReceiveSpan(ctx, tc, msg, pm)
+		defer end()
+	}
 	d.Handled = true
-	d.Out, d.Err = m.Handle(context.Background(), pm)
+	d.Out, d.Err = m.Handle(ctx, pm)
 	return d
 }
